@@ -12,9 +12,11 @@
 (*          tangents pass through one point).  Such an edge gives a record kind =       *)
 (*          "short"; a measurable one a record kind = "edge" with phin = the normal of  *)
 (*          the next measurable edge and gap = the number of short edges in between.    *)
+(*   The projections are taken at the grid direction (origin + k step, origin estimated   *)
+(*   from all measurable edges) nearest to phi when phi is within 1e-6 degree of it.     *)
 (*   offa, offb  end points projected on that normal; cref the reference quantile of    *)
 (*          the projected sample (order statistics + linear interpolation at index      *)
-(*          (n-1)(1-alpha), written out in the driver); all in units of 1/scale.        *)
+(*          (n-1)(1-alpha), written out in the driver); all in units of 1/scale (own scale per record).        *)
 (*   above = #{z > off + eps}, atleast = #{z >= off - eps} (eps: see FractionBeyond).   *)
 (* alpha = a / b exactly.                                                               *)
 EXTENDS Fix, Json, IOUtils, TLC
@@ -40,20 +42,27 @@ IsSteps(adv, m, step) == m >= 1 /\ CircWithin(adv, (m * step * 1000000) % Full)
 StepOk(p, q, gap, step) == IsSteps(Adv(p, q), gap + 1, step) \/ IsSteps(Adv(p, q), gap, step)
 StepsOf(p, q, gap, step) == IF IsSteps(Adv(p, q), gap + 1, step) THEN gap + 1 ELSE gap
 
-(* Offset tolerance in units: 2 (rounding of the projections to units) + 1e-6 of the     *)
-(* polygon size rc + 1e-8 of the sample radius rs (direction error 6e-11 rad times the   *)
-(* lever arm, float error of the interpolation).  A swapped quantile level or a shifted  *)
-(* index moves the offset by O(rc).                                                       *)
-OffTol(r) == 2 + (r.rc \div 1000000) + (r.rs \div 100000000)
+(* Offset tolerance.  Every record has its own power-of-ten scale with the largest of its  *)
+(* offsets between 1e8 and 1e9 units, so 1e-6 of an offset is >= 100 units.  Tolerance:      *)
+(* 2 units (rounding of the projections) + 1e-6 |cref| + 1e-6 lev, lev = distance of the     *)
+(* edge's vertices from the origin (they are accurate to ~1e-16/sin(step) <= 6e-15 of it;    *)
+(* the projections use the grid direction, accurate to ~1e-15 rad).  A swapped quantile      *)
+(* level, a shifted index, truncated or centred-and-rounded projections move the offset by   *)
+(* far more.                                                                                  *)
+OffTol(r, cref) == 2 + (Abs(cref) \div 1000000) + (r.lev \div 1000000)
 
-OnTangent(offa, offb, cref, r) == Within(offa, cref, OffTol(r)) /\ Within(offb, cref, OffTol(r))
+(* clo <= cref <= chi brackets the reference over direction round-off (+-2e-15 rad); the     *)
+(* three coincide unless the sample has points at ~1e15 times the offset                     *)
+Between(x, lo, hi, tol) == lo - tol <= x /\ x <= hi + tol
+OnTangent(offa, offb, cref, clo, chi, r) ==
+    Between(offa, clo, chi, OffTol(r, cref)) /\ Between(offb, clo, chi, OffTol(r, cref))
 
 CeilDiv(x, y) == (x + y - 1) \div y
 
 (* linear interpolation between the order statistics lo = floor(h), lo + 1 with          *)
 (* h = (n-1)(1-alpha) leaves at most ceil(alpha (n-1)) sample points strictly beyond the  *)
 (* line and at least floor(alpha (n-1)) on or beyond it - with or without ties.  The      *)
-(* driver counts with a margin eps = 1e-9 (rc + |p_i|) per point (above: beyond by more   *)
+(* driver counts with a margin eps = 1e-12 (lev + |p_i|) per point (above: beyond by more   *)
 (* than eps, atleast: not below by more than eps), which covers the measurement error     *)
 (* and can only make the clause weaker, never wrong.                                      *)
 FractionOk(above, atleast, r) == /\ above <= CeilDiv(r.a * (r.n - 1), r.b)
@@ -61,7 +70,7 @@ FractionOk(above, atleast, r) == /\ above <= CeilDiv(r.a * (r.n - 1), r.b)
 
 EdgeClauses(r) == <<
     <<"StepExact", StepOk(r.phi, r.phin, r.gap, r.step)>>,
-    <<"EdgeOnTangent", OnTangent(r.offa, r.offb, r.cref, r)>>,
+    <<"EdgeOnTangent", OnTangent(r.offa, r.offb, r.cref, r.clo, r.chi, r)>>,
     <<"FractionBeyond", FractionOk(r.above, r.atleast, r)>>
   >>
 
@@ -69,7 +78,8 @@ EdgeClauses(r) == <<
 (* of the direction it stands for, counted in whole steps from the measurable edge before *)
 (* it or, equivalently unless a zero-advance is involved, from the one after it            *)
 ShortClauses(r) == <<
-    <<"EdgeOnTangent", OnTangent(r.offa, r.offb, r.cref, r) \/ OnTangent(r.offa2, r.offb2, r.cref2, r)>>,
+    <<"EdgeOnTangent", OnTangent(r.offa, r.offb, r.cref, r.clo, r.chi, r)
+                       \/ OnTangent(r.offa2, r.offb2, r.cref2, r.clo2, r.chi2, r)>>,
     <<"FractionBeyond", FractionOk(r.above, r.atleast, r) \/ FractionOk(r.above2, r.atleast2, r)>>
   >>
 
